@@ -236,7 +236,7 @@ fn many_strategy() -> BoxedStrategy<ManyCase> {
     (
         prop::sample::select(vec![7usize, 9, 15, 21, 31, 33, 41]),
         prop::bool::weighted(0.7),
-        prop::sample::select(vec![11usize, 20, 23, 40, 45, 69, 70, 72, 90, 150, 161]),
+        prop::sample::select(vec![11usize, 20, 23, 40, 45, 69, 70, 72, 90, 150, 161, 255, 256, 257, 300]),
         0usize..40,
         0usize..1000,
         proptest::collection::vec(any::<u16>(), 2..9),
@@ -286,7 +286,7 @@ fn check_many(c: &ManyCase, ctx: &Ctx) -> Outcome {
     pass(perm.iter().enumerate().any(|(a, b)| a != *b), key_of(&(c.k, c.rc, c.n, c.len, c.salt, &perm, c.threads_a, c.threads_b)), cl)
 }
 
-const MANY_RULE: &str = "generated: 11-161 one-record samples (a common sequence of k+8..k+47 bases with one sample-specific substitution each), built once in listed order and once in a generated permutation, with thread counts from {1,2,8} and {1,2,4,8,16} (both sides of the 10-samples-per-thread rule and merge depths 1-4), k in {7,9,15,21,31,33,41}, both strand modes. Oracle: each table equals the string model's table for that sample order (so the permutation only permutes the columns). Non-trivial: the permutation is not the identity.";
+const MANY_RULE: &str = "generated: 11-300 one-record samples (counts on both sides of every 10-per-thread threshold and of 256) (a common sequence of k+8..k+47 bases with one sample-specific substitution each), built once in listed order and once in a generated permutation, with thread counts from {1,2,8} and {1,2,4,8,16} (both sides of the 10-samples-per-thread rule and merge depths 1-4), k in {7,9,15,21,31,33,41}, both strand modes. Oracle: each table equals the string model's table for that sample order (so the permutation only permutes the columns). Non-trivial: the permutation is not the identity.";
 
 fn stages(tier: Tier) -> Vec<Box<dyn Stage>> {
     vec![
